@@ -818,6 +818,11 @@ def hand_cases():
     cases["kf_units_cycle_by_renaming"] = {
         f0: M("m0", [U("u0"), UI("u1", f1, "u0")], [C("top", [V("z", "u1", "1")])]),
         f1: M("m1", [U("u0", "u1"), U("u1")], [])}
+    # still a crash after 85ba0d4: v is re-used as the importer's q, the NAME q is written into the imported model's q = [v],
+    # which now refers to itself, and transferUnitsRenamingIfRequired recurses over that cycle without end
+    cases["kf_transfer_recursion"] = {
+        f0: M("m0", [UI("q", f1, "v")], [C("top", [V("z", "q", "1")]), CI("c", f1, "c")]),
+        f1: M("m1", [U("q", ("v", "", 1, -3)), U("v", ("metre", "kilo"))], [C("c", [V("x", "q", "2"), V("y", "v", "3")])])}
     # an import below an import placeholder of a library file is never resolved
     cases["kf_unresolved_below_placeholder"] = {
         f0: M("m0", [], [CI("c", f1, "c")]),
